@@ -3,6 +3,9 @@ use std::fs::{create_dir_all, File};
 use std::io::{Read, Write};
 use std::path::{Path, PathBuf};
 
+#[cfg(feature = "verif")]
+use crate::verif::fs as vfs;
+
 pub trait BlobWriter: Send + Sync {
     fn store(&self, path: &Path, data: &[u8])
         -> Result<(), Box<dyn Error + Send + Sync + 'static>>;
@@ -114,15 +117,43 @@ impl BlobWriter for FileBlobWriter {
     ) -> Result<(), Box<dyn Error + Send + Sync + 'static>> {
         // Create the directory if it doesn't exist
         if let Some(parent) = path.parent() {
+            #[cfg(feature = "verif")]
+            let created = !parent.exists();
+            #[cfg(feature = "verif")]
+            if created {
+                vfs::emit(vfs::Kind::Mkdir, vfs::Phase::Before, parent, None, None);
+            }
             create_dir_all(parent)?;
+            #[cfg(feature = "verif")]
+            if created {
+                vfs::emit(vfs::Kind::Mkdir, vfs::Phase::After, parent, None, None);
+            }
         }
 
         // Write the data to a temporary file and then rename it to the target path
         let tmp_path = path.with_extension(".INCOMPLETE");
+        #[cfg(feature = "verif")]
+        vfs::emit(vfs::Kind::Create, vfs::Phase::Before, &tmp_path, None, None);
         let mut file = File::create(&tmp_path)?;
+        #[cfg(feature = "verif")]
+        vfs::emit(vfs::Kind::Create, vfs::Phase::After, &tmp_path, None, None);
+        #[cfg(feature = "verif")]
+        vfs::emit(vfs::Kind::Write, vfs::Phase::Before, &tmp_path, None, Some(data));
         file.write_all(data)?;
+        #[cfg(feature = "verif")]
+        vfs::emit(vfs::Kind::Write, vfs::Phase::After, &tmp_path, None, Some(data));
+        #[cfg(feature = "verif")]
+        vfs::emit(vfs::Kind::Sync, vfs::Phase::Before, &tmp_path, None, None);
         file.sync_all()?;
+        #[cfg(feature = "verif")]
+        vfs::emit(vfs::Kind::Sync, vfs::Phase::After, &tmp_path, None, None);
+        #[cfg(feature = "verif")]
+        vfs::emit(vfs::Kind::Rename, vfs::Phase::Before, &tmp_path, Some(path), None);
+        #[cfg(feature = "verif")]
+        let tmp_path_verif = tmp_path.clone();
         std::fs::rename(tmp_path, path).map_err(|e| format!("Failed to rename file: {}", e))?;
+        #[cfg(feature = "verif")]
+        vfs::emit(vfs::Kind::Rename, vfs::Phase::After, &tmp_path_verif, Some(path), None);
 
         Ok(())
     }
@@ -135,7 +166,11 @@ impl BlobWriter for FileBlobWriter {
     }
 
     fn delete(&self, path: &Path) -> Result<(), Box<dyn Error + Send + Sync + 'static>> {
+        #[cfg(feature = "verif")]
+        vfs::emit(vfs::Kind::Remove, vfs::Phase::Before, path, None, None);
         std::fs::remove_file(path)?;
+        #[cfg(feature = "verif")]
+        vfs::emit(vfs::Kind::Remove, vfs::Phase::After, path, None, None);
         Ok(())
     }
 
